@@ -150,6 +150,38 @@ func c02noSkip(c *Ctx, a *procAnchors, sinks []site) {
 	mt := mu.Map.Type().Underlying().(*types.Map)
 	R.Check("C02.no-skip", "C02.no-skip/keyed-by-address", c.sitePos(p, mus[0]), "signatures are recorded by map assignment keyed by guardian address (idempotent, order-independent)",
 		strings.HasSuffix(mt.Key().String(), "go-ethereum/common.Address"), "map key type "+mt.Key().String())
+	// every verified observation is recorded: a return that is not preceded by the recording of
+	// the signature must be a rejection (recover failed, address mismatch, no guardian set, not a
+	// member). Skipping a verified observation — for instance as a "duplicate" — also skips the
+	// quorum evaluation that the node's own looped-back observation is there to trigger.
+	nret := 0
+	eachInstr(a.hObs, func(i ssa.Instruction) {
+		r, ok := i.(*ssa.Return)
+		if !ok || r.Block().Comment == "recover" {
+			return
+		}
+		nret++
+		if facts.Before(r, func(j ssa.Instruction) bool { return j == ssa.Instruction(mu) }) {
+			return
+		}
+		fs := facts.At(r, nil)
+		rejected := facts.Has(fs, func(at string) bool {
+			switch {
+			case strings.HasPrefix(at, "geth/crypto.Ecrecover(m.Hash,m.Signature)") && strings.HasSuffix(at, "#1 != nil"):
+				return true
+			case strings.Contains(at, " != geth/common.BytesToAddress(m.Addr)") || strings.HasPrefix(at, "geth/common.BytesToAddress(m.Addr) != "):
+				return true
+			case strings.HasPrefix(at, "!(*N/common.GuardianSet).KeyIndex(") && strings.HasSuffix(at, "#1"):
+				return true
+			case strings.HasSuffix(at, ".gs} == nil") || at == "p.gs == nil":
+				return true
+			}
+			return false
+		})
+		R.Check("C02.no-skip", R.Key("C02.no-skip", shortFn(a.hObs), "return-before-recording"), c.rel(p.Pos(instrPos(r))), "a return of handleObservation that does not record the signature is a rejection (bad signature, address mismatch, no guardian set, not a member)", rejected,
+			"a verified observation from a guardian-set member is dropped without being recorded and without evaluating quorum (facts: "+facts.Join(fs)+"): when it is the node's own looped-back observation that completes `observed + quorum`, the VAA is never published")
+	})
+	R.Floor("C02.no-skip.returns", nret, 5)
 	entry := "p.state.vaaSignatures[encoding/hex.EncodeToString(m.Hash)]"
 	isIf := func(pred func(facts.Fact) bool) func(ssa.Instruction) bool {
 		return func(i ssa.Instruction) bool {
